@@ -37,7 +37,7 @@ var cfgHeaderNames = []string{"X-Test", "Accept", "User-Agent", "Cookie", "X-Cfg
 
 func genCase(t *rapid.T) Case {
 	format := rapid.SampledFrom([]string{"uri", "uripost", "raw", "jsonline"}).Draw(t, "format")
-	c := Case{File: ag.Gen(t, format, ag.GenOpts{MinEntries: 1, MaxEntries: 6})}
+	c := Case{File: ag.Gen(t, format, ag.GenOpts{MinEntries: 1, MaxEntries: 6, AllowBig: true})}
 	// configured headers: unique names; prefer names the file also defines
 	var fileNames []string
 	for _, w := range c.File.Expected() {
@@ -254,6 +254,7 @@ func check(c Case, o *vf.Obs) error {
 		}
 	}
 	o.Class("format_" + c.File.Format)
+	o.ClassIf(c.File.Big, "file_larger_than_reader_buffer")
 	o.ClassIf(overlap, "config_header_overlaps_ammo")
 	o.ClassIf(overlap, "overlap_"+c.File.Format)
 	o.ClassIf(hostAmmo, "host_from_ammo")
